@@ -200,6 +200,47 @@ def rendered_texts(ctx: Ctx):
     return texts
 
 
+def consumer_history(ctx: Ctx, Tokenizer, TokenizerError, texts):
+    """the tokenizer's answer for a text must not depend on what happened to the tokens of an earlier tokenization of the
+    same text: the library's own consumers (the post-fix conversion of the formula writer, through `Formula.formula_tokens`
+    and through the public `cell.formula = text` setter) run between a first and a second / third tokenization."""
+    import warnings
+    from numbers_parser import Document
+    from numbers_parser.formula import Formula
+    doc = Document(num_rows=3, num_cols=3)
+    table = doc.sheets[0].tables[0]
+    req, out = [], []
+    consumed = 0
+    for s in texts:
+        first = tok(Tokenizer, TokenizerError, s, ctx)
+        req.append(f"tok tokenize {enc_text(s)}")
+        out.append(first)
+        if not first.startswith("ok"):
+            continue
+        with warnings.catch_warnings():
+            warnings.simplefilter("ignore")
+            for consumer in ("formula_tokens", "setter", "setter"):
+                try:
+                    if consumer == "formula_tokens":
+                        Formula.formula_tokens(s)
+                    else:
+                        table.cell(1, 1).formula = s
+                    consumed += 1
+                except Exception:  # noqa: BLE001   the formula writer is not under test here
+                    pass
+                again = tok(Tokenizer, TokenizerError, s, ctx)
+                req.append(f"tok tokenize {enc_text(s)}")
+                out.append(again)
+                if again != first:
+                    ctx.violation("tokenizer-result-depends-on-history",
+                                  f"Tokenizer({s!r}) after the library's own {consumer} consumed the tokens of an earlier "
+                                  f"tokenization of the same text: {again[:200]!r}, first time {first[:200]!r}", {"text": s, "history": consumer})
+                    break
+    ctx.correspond("texts tokenized again after the library's own token consumers (Formula.formula_tokens, the cell.formula "
+                   "setter) ran on an earlier tokenization of the same text", req, out)
+    ctx.extra["consumer_history"] = {"texts": len(texts), "consumer_runs": consumed}
+
+
 def run(ctx: Ctx):
     from numbers_parser.tokenizer import Tokenizer, TokenizerError
 
@@ -289,6 +330,12 @@ def run(ctx: Ctx):
             pass
     batch("formula / reference texts rendered by the reader from C08 and C09 generated expressions", sorted({f for _, f in rend}))
     ctx.extra["rendered_texts"] = {"count": len(rend), "rejected": rej}
+
+    hist = [f for f in forms if "(" in f][: 400 if ctx.quick else 5000] + sorted({f for _, f in rend if "(" in f})[: 400 if ctx.quick else 5000]
+    hist += ["SUM(A1:A3)", "SUM(A1:A3)", "IF(A1>1,ABS(B1),SUM(1,2))", "1+2", "A1", "ABS(-1)%", "SUM(A1,{1,2;3,4})"]
+    from numbers_parser.formula import OPERATOR_MAP   # the writer tokenizes the text with × ÷ ≤ … mapped to ASCII
+    hist += [t for t in (f.translate(OPERATOR_MAP) for f in hist) if t not in hist]
+    consumer_history(ctx, Tokenizer, TokenizerError, hist)
 
     # clause 4, the theorem's domain: (a) every generated stored expression (arrays, lists, calls, empty arguments) is
     # TokSafe; (b) refOK as stated independently in Python = the Lean predicate, exhaustively on short strings over a
